@@ -1,6 +1,24 @@
 (* Pins_C15.v — the statements of Props_C15.v, pinned. *)
-From FV Require Import Base ListLib GroupModel GroupProofs GroupProofs2 GroupProofs3 GroupProofs4 GroupProofs5 GroupProofs8 GroupProofs9 GroupWitness Props_C15.
+From FV Require Import Base ListLib GroupModel GroupProofs GroupProofs2 GroupProofs3 GroupProofs4 GroupProofs5 GroupProofs6 GroupProofs8 GroupProofs9 GroupWitness Props_C15.
 Open Scope N_scope.
+Check C15_run_semantics :
+  forall (hf : hash_fn) (old : hash) (run : list item),
+    ((forall x, In x run -> hf (snd x) old = None) /\ hash_from hf old run = []) \/
+    (exists pre rep suf h len, run = pre ++ rep :: suf /\ (forall x, In x pre -> hf (snd x) old = None) /\
+        hf (snd rep) old = Some (h, len) /\
+        hash_from hf old run = map (fun y => (h, set_len (snd y) len)) (rep :: suf)).
+Check C15_readable_not_lost :
+  forall (H : list N -> hash) (T : list N -> option (list N)) (c : gcfg) (n : nd) (scanned : list file),
+    wf_nd n -> wf_ids scanned -> wf_len scanned -> wf_paths scanned -> collision_free H c scanned ->
+    transform c = false -> skip_content c = false ->
+    let out := group_files H T c n scanned in
+    (forall f, ok c scanned f -> readable n f ->
+       (qual_r c n scanned f -> exists g, In g out /\ In f (gfiles g)) /\
+       (forall g, In g out -> In f (gfiles g) ->
+          (forall x, ok c scanned x -> readable n x -> fdata x = fdata f -> In x (gfiles g)) /\
+          (forall x, In x (gfiles g) -> ok c scanned x /\ fdata x = fdata f) /\ matches_strictly c g = true)) /\
+    (NoDup (all_files out) /\ forall f, In f (all_files out) -> ok c scanned f) /\
+    (forall g g' f f', In g out -> In g' out -> In f (gfiles g) -> In f' (gfiles g') -> fdata f = fdata f' -> g = g').
 Check C15_isolated :
   forall (H : list N -> hash) (T : list N -> option (list N)) (c : gcfg) (n : nd) (scanned : list file),
     wf_nd n -> wf_ids scanned -> wf_len scanned -> wf_paths scanned -> collision_free H c scanned ->
@@ -17,7 +35,20 @@ Check C15_sound_under_faults :
     skip_content c = false -> transform c = false ->
     forall g, In g (group_files H T c n scanned) ->
     forall f f', In f (gfiles g) -> In f' (gfiles g) -> fdata f = fdata f' /\ glen g = N.of_nat (length (fdata f)).
-Check C15_failed_never_duplicate_except_K5 :
+Check C15_keyed_has_readable_path :
+  forall (H : list N -> hash) (T : list N -> option (list N)) (c : gcfg) (n : nd) (scanned : list file),
+    wf_nd n -> transform c = false -> skip_content c = false ->
+    forall g, In g (group_files H T c n scanned) ->
+      one_id (gfiles g) \/
+      ((forall f, In f (gfiles g) -> exists rep, fid rep = fid f /\ fails n StPrefix rep = false) /\
+       (prefix_len_of c (remove_same_files c (group_by_size c (filter (size_ok c) scanned))) <= glen g ->
+        forall f, In f (gfiles g) -> exists rep, fid rep = fid f /\ fails n StContents rep = false)).
+Check C15_keyed_has_readable_path_transform :
+  forall (H : list N -> hash) (T : list N -> option (list N)) (c : gcfg) (n : nd) (scanned : list file),
+    wf_nd n -> transform c = true ->
+    forall g f, In g (group_files H T c n scanned) -> In f (gfiles g) ->
+      exists rep, fid rep = fid f /\ fails n StTransform rep = false.
+Check C15_failed_never_duplicate :
   forall (H : list N -> hash) (T : list N -> option (list N)) (c : gcfg) (n : nd) (scanned : list file),
     wf_nd n -> inode_determined n -> transform c = false -> skip_content c = false ->
     forall g, In g (group_files H T c n scanned) ->
@@ -25,16 +56,14 @@ Check C15_failed_never_duplicate_except_K5 :
       ((forall f, In f (gfiles g) -> fails n StPrefix f = false) /\
        (prefix_len_of c (remove_same_files c (group_by_size c (filter (size_ok c) scanned))) <= glen g ->
         forall f, In f (gfiles g) -> fails n StContents f = false)).
-Check C15_failed_never_reported_transform_except_K5 :
+Check C15_failed_never_reported_transform :
   forall (H : list N -> hash) (T : list N -> option (list N)) (c : gcfg) (n : nd) (scanned : list file),
     wf_nd n -> inode_determined n -> transform c = true ->
     forall g f, In g (group_files H T c n scanned) -> In f (gfiles g) -> fails n StTransform f = false.
-Check C15_K5_witness :
-  exists (H : list N -> hash) (T : list N -> option (list N)) (c : gcfg) (n : nd) (a b x : file),
-    wf_nd n /\ wf_ids [a; b; x] /\ fid a = fid b /\ fpath a <> fpath b /\
-    (forall st f, fails n st f = true -> fpath f = fpath a) /\ (forall st, fails n st b = false) /\
-    group_files H T c n [a; b; x] = [] /\
-    exists g f, In g (group_files H T c (nd_of_mode 0) [b; x]) /\ In f (gfiles g) /\ fpath f = fpath b.
+Check (eq_refl : readable = fun n f => forall st, fails n st f = false).
 Check (eq_refl : clean = fun c n scanned f => forall x st, ok c scanned x -> fdata x = fdata f -> fails n st x = false).
+Check (eq_refl : qual_r = fun c n scanned f =>
+  exists cl R, is_class c scanned f cl /\ NoDup R /\ (forall x, In x R <-> In x cl /\ readable n x) /\
+    match repl c with Over rf => rf < subgroup_count c R | Under k => subgroup_count c cl < k end).
 Check (eq_refl : inode_determined = fun n => forall a b st, fid a = fid b -> fails n st a = fails n st b).
 Check (eq_refl : one_id = fun fs => forall f f', In f fs -> In f' fs -> fid f = fid f').
